@@ -87,7 +87,9 @@ Definition dispatch (req : sx) : sx :=
          sx_res SI (file_num_versions is64 shdrs n);
          sx_ok (SI (zlen defs));
          sx_list (fun i => sx_res (sx_opt sx_ver) (file_verdef_get_version le is64 img shdrs n i)) idxs;
-         sx_list (fun i => sx_ok (sx_opt sx_ver (option_map verdef_view (verdef_find i defs)))) idxs ]
+         sx_list (fun i => sx_ok (sx_opt sx_ver (option_map verdef_view (verdef_find i defs)))) idxs;
+         (* hypothesis of C15_verdef_ended_at_zero_link (its expected value is element 2) *)
+         sx_bool (verdef_section_ended_wf le img shdrs (Z.to_nat n) defs) ]
   (* --- (verneed le is64 #img (shdr...) n (verneed...) (idx...)) --- *)
   else if op =? "verneed" then
     let img := gB a3 in let shdrs := map g_shdr (gL a4) in let n := gI a5 in
@@ -102,7 +104,9 @@ Definition dispatch (req : sx) : sx :=
          sx_list (fun i => sx_ok (sx_opt sx_hit (option_map verneed_hit_view (verneed_find i needs)))) idxs;
          sx_res (fun p => SL [sx_res sx_bool (fst p); sx_res sx_bool (snd p)])
                 (file_verneed_has_indexes le is64 img shdrs n);
-         sx_ok (SL [sx_ok (sx_bool hi); sx_ok (sx_bool hi)]) ]
+         sx_ok (SL [sx_ok (sx_bool hi); sx_ok (sx_bool hi)]);
+         (* hypothesis of C15_verneed_ended_at_zero_link (its expected value is element 2) *)
+         sx_bool (verneed_section_ended_wf le img shdrs (Z.to_nat n) needs) ]
   (* --- (versym le is64 #img (shdr...) n ((versym dynsym)...)) --- *)
   else if op =? "versym" then
     let img := gB a3 in let shdrs := map g_shdr (gL a4) in let n := gI a5 in
